@@ -1,6 +1,12 @@
 #!/bin/bash
 # Re-check every Props/*.vo (and everything they depend on) with the independent checker and record the axiom summary.
-cd /verif/coq
+# Works on a private copy of coq/ (the checks delete and rebuild the .vo files of their own targets on every run, so a
+# concurrent check would pull files from under coqchk); the copy is completed with a full `make` first and removed afterwards.
+set -u
+tmp=$(mktemp -d /tmp/coqchk_copy.XXXXXX)
+cp -a /verif/coq/. $tmp/
+cd $tmp
+( coq_makefile -f _CoqProject -o Makefile >/dev/null 2>&1; timeout 7200 make -j6 >/tmp/coqchk_make.log 2>&1 ); mk=$?
 mods=$(ls Props/*.v | sed 's|/|.|; s|\.v$||; s|^|PV.|')
-( date; echo "coqchk -silent -o -Q . PV $mods"; timeout 14000 coqchk -silent -o -Q . PV $mods 2>&1 | tail -40 ) > /verif/design_notes/coqchk.txt 2>&1
-echo "exit $?" >> /verif/design_notes/coqchk.txt
+( date; echo "full make in the copy: exit $mk"; echo "coqchk -silent -o -Q . PV $mods"; timeout 14000 coqchk -silent -o -Q . PV $mods 2>&1 | tail -40; echo "exit ${PIPESTATUS[0]}" ) > /verif/design_notes/coqchk.txt 2>&1
+cd /; rm -rf $tmp
